@@ -286,6 +286,9 @@ func c11Run(c *fw.Case, env *fw.Env) *fw.Obs {
 			return
 		}
 		c11CheckDag(o, d, mode, rng, budget)
+		for k := 0; k < 3 && len(o.Viols) == 0; k++ {
+			c11QueueProgram(o, d, mode, rng)
+		}
 		o.Ev("dags", 1)
 		merges := 0
 		for _, ps := range parents {
